@@ -14,7 +14,7 @@
    The sizes of a BUILT entry (raw size = content length for every call partition, codec, cipher) belong to the
    pipeline area (Props/C01*.v) and are checked here on the implementation by the `sizes` cases. *)
 From PNA Require Import Base Crc32 Codec Chunk Archive Entry BaseFacts ChunkFacts ArchiveFacts EntryFacts OffsetFacts.
-From PNA Require Split.
+From PNA Require Split ArchiveRun.
 Open Scope N_scope.
 
 (* ---- chunk ----------------------------------------------------------------------------------------------- *)
@@ -127,6 +127,21 @@ Check C18_append_at_seek_position :
     28 + off = len a - 12 /\
     firstn (N.to_nat (28 + off)) a ++ fst (add_chunks new) ++ finalize = write_raw_archive num (es ++ [new]).
 Print Assumptions C18_append_at_seek_position.
+
+(* append exactly as the code does it (ArchiveRun.append_raw = read_header; seek_to_end; add_entry of every raw entry of
+   a donor archive; finalize — written IN PLACE into the old file, which is never truncated; this definition is run
+   against Archive::seek_to_end / add_entry / finalize on a Cursor by the `append` cases): for written archives the
+   result is exactly the archive of the concatenated entry lists — the old end marker is overwritten completely *)
+Theorem C18_append_in_place :
+  forall num es dn new, num < 2 ^ 32 -> dn < 2 ^ 32 -> Forall wf_entry es -> Forall wf_entry new ->
+  ArchiveRun.append_raw (write_raw_archive num es) (write_raw_archive dn new) =
+  Ok (write_raw_archive num (es ++ new), false).
+Proof. exact append_raw_written. Qed.
+Check C18_append_in_place :
+  forall num es dn new, num < 2 ^ 32 -> dn < 2 ^ 32 -> Forall wf_entry es -> Forall wf_entry new ->
+  ArchiveRun.append_raw (write_raw_archive num es) (write_raw_archive dn new) =
+  Ok (write_raw_archive num (es ++ new), false).
+Print Assumptions C18_append_in_place.
 
 (* ---- counts returned by add_entry / add_entry_part ----------------------------------------------------------------- *)
 (* the byte count returned when adding an entry / entry part equals the bytes written *)
